@@ -417,3 +417,69 @@ Proof.
     - destruct (IHHp Hyz) as [w [W1 W2]]. exists w. split; [econstructor; eauto|assumption]. }
   destruct H as [y [Hy He]]. exists y. split; [cbn; apply in_map_iff; exists (y, n); auto|]. now apply gpath_rev'.
 Qed.
+
+(* ---------- completeness of Kahn layering: a graph with a rank function is layered ---------- *)
+Lemma min_rank_exists (r : str -> nat) : forall l : list str, l <> [] ->
+  exists m, In m l /\ forall x, In x l -> r m <= r x.
+Proof.
+  induction l as [|a l IH]; intros Hne; [congruence|]. destruct l as [|b l'].
+  - exists a. split; [now left|]. intros x [<-|[]]. lia.
+  - destruct IH as [m [Hm Hmin]]; [discriminate|]. destruct (Nat.le_gt_cases (r a) (r m)) as [Hle|Hgt].
+    + exists a. split; [now left|]. intros x [<-|Hx]; [lia|]. specialize (Hmin x Hx). lia.
+    + exists m. split; [now right|]. intros x [<-|Hx]; [lia|]. now apply Hmin.
+Qed.
+
+Lemma filter_true_id {A} (l : list A) : filter (fun _ => true) l = l.
+Proof. induction l as [|a l IH]; cbn; [reflexivity|now rewrite IH]. Qed.
+
+Lemma kahn_complete g (r : str -> nat) : forall fuel rem,
+  (forall u v, In u rem -> In v rem -> In u (preds g v) -> r u < r v) ->
+  length rem <= fuel -> exists ls, kahn fuel g rem = Some ls.
+Proof.
+  induction fuel as [|fuel IH]; intros rem Hr Hlen.
+  - destruct rem; [cbn; eauto|cbn in Hlen; lia].
+  - destruct rem as [|r0 rem0]; [cbn; eauto|]. rewrite kahn_cons. set (rem := r0 :: rem0) in *.
+    destruct (min_rank_exists r rem) as [m [Hm Hmin]]; [discriminate|].
+    assert (Hready : ready g rem m = true).
+    { unfold ready. apply forallb_forall. intros u Hu. apply negb_true_iff. apply mem_str_not_In. intros Hin.
+      pose proof (Hr u m Hin Hm Hu). specialize (Hmin u Hin). lia. }
+    assert (Hml : In m (filter (ready g rem) rem)) by (apply filter_In; auto).
+    destruct (filter (ready g rem) rem) as [|a b] eqn:El; [contradiction|]. set (layer := a :: b) in *.
+    destruct (IH (diff_str rem layer)) as [ls Hls].
+    + intros u v Hu Hv. apply diff_str_In in Hu as [Hu _]. apply diff_str_In in Hv as [Hv _]. now apply Hr.
+    + assert (Hlt : length (diff_str rem layer) < length rem).
+      { unfold diff_str. rewrite <- (filter_true_id rem) at 2.
+        apply filter_length_lt; [intros; reflexivity|]. exists m. split; [assumption|]. split; [reflexivity|].
+        apply negb_false_iff. now apply mem_str_In. }
+      lia.
+    + rewrite Hls. eauto.
+Qed.
+
+Theorem topo_generations_complete g (r : str -> nat) :
+  (forall u v, In u (nodes g) -> In v (nodes g) -> In (u, v) (edges g) -> r u < r v) ->
+  exists ls, topo_generations g = Some ls.
+Proof.
+  intros H. unfold topo_generations. apply (kahn_complete g r); [|lia]. intros u v Hu Hv Hp. apply H; auto.
+  unfold preds in Hp. apply in_map_iff in Hp as [[a b] [E Hp]]. cbn in E. subst a. apply filter_In in Hp as [Hp E].
+  cbn in E. apply str_eqb_eq in E. now subst b.
+Qed.
+
+(* a node of lower rank comes earlier in the concatenated layers *)
+Lemma app_split_notin {A} (a c l1 l2 : list A) v : a ++ c = l1 ++ v :: l2 -> ~ In v a ->
+  exists l1', l1 = a ++ l1' /\ c = l1' ++ v :: l2.
+Proof.
+  revert l1. induction a as [|x a IH]; intros l1 H Hn; [exists l1; auto|]. destruct l1 as [|y l1]; cbn in H.
+  - inversion H; subst. exfalso. apply Hn. now left.
+  - inversion H; subst. destruct (IH l1 H2) as [l1' [E1 E2]]; [intros Hi; apply Hn; now right|].
+    exists l1'. split; [cbn; now rewrite E1|assumption].
+Qed.
+
+Lemma rank_lt_before : forall ls u v l1 l2, In u (concat ls) -> rank_of ls u < rank_of ls v ->
+  concat ls = l1 ++ v :: l2 -> In u l1.
+Proof.
+  induction ls as [|a ls IH]; intros u v l1 l2 Hu Hr Hc; [contradiction|]. cbn in Hr, Hc, Hu.
+  destruct (mem_str v a) eqn:Ev; [lia|]. apply mem_str_not_In in Ev.
+  destruct (app_split_notin a (concat ls) l1 l2 v Hc Ev) as [l1' [-> E2]]. apply in_app_iff.
+  destruct (mem_str u a) eqn:Eu; [left; now apply mem_str_In|]. apply mem_str_not_In in Eu. right.
+  apply in_app_iff in Hu as [Hu|Hu]; [contradiction|]. eapply IH; eauto. lia.
+Qed.
